@@ -576,4 +576,147 @@ theorem exec_inv (hash : Bytes → Digest) (d : Digest) (content : Bytes) (hh : 
     intro s h
     exact ih _ (execEv_inv hash d content hh hsz s ev h)
 
+/-! ## manifests -/
+
+theorem copyNamed_exact_file (hash : Bytes → Digest) (st : FileSt) (f : Bytes)
+    (hne : st.map List.length ≠ some f.length) :
+    run (copyNamedEffs hash st (hash f) f.length ⟨[f], .eof⟩).1 st = some f := by
+  unfold copyNamedEffs
+  simp only [hne, if_false]
+  by_cases hz : f.length = 0
+  · have hf : f = [] := List.eq_nil_of_length_eq_zero hz
+    subst hf
+    cases st with
+    | none => simp [afterStat, applyEff]
+    | some g =>
+      have hg : g.length ≠ 0 := by intro e; apply hne; simp [e]
+      have : statTrunc (some g) 0 = true := by simp [statTrunc]; omega
+      simp [afterStat, this, applyEff]
+  · have hok : (copyLoop hash (hash f) f.length 0 [] [f] .eof).2 = .ok := by
+      have hf : f ≠ [] := by intro e; apply hz; simp [e]
+      simp [copyLoop, hf]
+    have heff := afterStat_effs_ok hash (statTrunc st f.length) (hash f) f.length ⟨[f], .eof⟩ hz hok
+    rw [heff]
+    obtain ⟨g, hopen, hg⟩ := open_short st f.length hne hz
+    have := copyLoop_ok hash (hash f) f.length g hg [f] [] .eof (seenOK_nil hash _ _ hz) hok
+    simp only [overlay_nil, List.nil_append, List.flatten_cons, List.flatten_nil, List.append_nil] at this
+    simp only [run_cons, hopen, run_append, this.1]
+    rfl
+
+theorem foldEq_refl (a : MPath) : foldEq a a = true := by simp [foldEq]
+
+theorem manGet_manInsertNew (p : MPath) (v : Bytes) : ∀ (mans : List (MPath × Bytes)),
+    (∀ e ∈ mans, (e.1 == p) = false) → manGet (manInsertNew p v mans) p = some v := by
+  intro mans
+  induction mans with
+  | nil => intro _; simp [manInsertNew, manGet]
+  | cons x xs ih =>
+    intro h
+    unfold manInsertNew
+    split
+    · simp [manGet]
+    · have hx := h x (List.mem_cons_self)
+      have := ih (fun e he => h e (List.mem_cons_of_mem _ he))
+      simp only [manGet, List.find?_cons, hx] at this ⊢
+      exact this
+
+theorem manGet_map_replace (p : MPath) (v : Bytes) : ∀ (mans : List (MPath × Bytes)),
+    mans.any (fun e => e.1 == p) = true →
+    manGet (mans.map (fun e => if e.1 == p then (p, v) else e)) p = some v := by
+  intro mans
+  induction mans with
+  | nil => intro h; simp at h
+  | cons x xs ih =>
+    intro h
+    by_cases hx : (x.1 == p) = true
+    · simp [manGet, hx]
+    · have hx' : (x.1 == p) = false := by simpa using hx
+      have hany : xs.any (fun e => e.1 == p) = true := by simpa [hx'] using h
+      have := ih hany
+      simp only [manGet, List.map_cons, hx', Bool.false_eq_true, if_false, List.find?_cons] at this ⊢
+      exact this
+
+theorem manGet_manSet_same (mans : List (MPath × Bytes)) (p : MPath) (v : Bytes) :
+    manGet (manSet mans p (some v)) p = some v := by
+  unfold manSet
+  simp only
+  split
+  · next h => exact manGet_map_replace p v mans h
+  · next h =>
+    apply manGet_manInsertNew
+    intro e he
+    have : ¬ (mans.any (fun e => e.1 == p) = true) := h
+    simp only [List.any_eq_true, not_exists, not_and] at this
+    simpa using this e he
+
+theorem manifestPathOf_insertNew (want : MPath) (v : Bytes) : ∀ (mans : List (MPath × Bytes)),
+    (∀ e ∈ mans, foldEq want e.1 = false) →
+    manifestPathOf (manInsertNew want v mans) want = want := by
+  intro mans
+  induction mans with
+  | nil => intro _; simp [manInsertNew, manifestPathOf, foldEq_refl]
+  | cons x xs ih =>
+    intro h
+    unfold manInsertNew
+    split
+    · simp [manifestPathOf, foldEq_refl]
+    · have hx := h x (List.mem_cons_self)
+      have := ih (fun e he => h e (List.mem_cons_of_mem _ he))
+      simp only [manifestPathOf, List.find?_cons, hx] at this ⊢
+      exact this
+
+theorem manifestPathOf_map_replace (want : MPath) (v : Bytes) (e : MPath × Bytes) :
+    ∀ (mans : List (MPath × Bytes)), mans.find? (fun x => foldEq want x.1) = some e →
+    manifestPathOf (mans.map (fun x => if x.1 == e.1 then (e.1, v) else x)) want = e.1 := by
+  intro mans
+  induction mans with
+  | nil => intro h; simp at h
+  | cons x xs ih =>
+    intro h
+    by_cases hx : foldEq want x.1 = true
+    · simp only [List.find?_cons, hx, Option.some.injEq] at h
+      subst h
+      simp [manifestPathOf, hx]
+    · have hx' : foldEq want x.1 = false := by simpa using hx
+      simp only [List.find?_cons, hx'] at h
+      have he : foldEq want e.1 = true := by simpa using List.find?_some h
+      have hne : (x.1 == e.1) = false := by
+        cases hb : (x.1 == e.1) with
+        | false => rfl
+        | true => rw [beq_iff_eq] at hb; rw [hb] at hx'; rw [hx'] at he; cases he
+      have := ih h
+      simp only [manifestPathOf, List.map_cons, hne, Bool.false_eq_true, if_false, List.find?_cons, hx'] at this ⊢
+      exact this
+
+/-- writing the manifest at `manifestPath(name)` does not change what `manifestPath(name)` is -/
+theorem manifestPathOf_manSet (mans : List (MPath × Bytes)) (want : MPath) (v : Bytes) :
+    manifestPathOf (manSet mans (manifestPathOf mans want) (some v)) want = manifestPathOf mans want := by
+  cases hfind : mans.find? (fun x => foldEq want x.1) with
+  | some e =>
+    have hp : manifestPathOf mans want = e.1 := by simp [manifestPathOf, hfind]
+    rw [hp]
+    have hmem : e ∈ mans := List.mem_of_find?_eq_some hfind
+    have hany : mans.any (fun x => x.1 == e.1) = true := by
+      simp only [List.any_eq_true]; exact ⟨e, hmem, by simp⟩
+    simp only [manSet, hany, if_true]
+    exact manifestPathOf_map_replace want v e mans hfind
+  | none =>
+    have hp : manifestPathOf mans want = want := by simp [manifestPathOf, hfind]
+    rw [hp]
+    have hall : ∀ e ∈ mans, foldEq want e.1 = false := by
+      intro e he
+      have := List.find?_eq_none.mp hfind e he
+      simpa using this
+    have hany : mans.any (fun x => x.1 == want) = false := by
+      rw [Bool.eq_false_iff]
+      intro h
+      simp only [List.any_eq_true] at h
+      obtain ⟨e, he, hk⟩ := h
+      rw [beq_iff_eq] at hk
+      have := hall e he
+      rw [hk, foldEq_refl] at this
+      cases this
+    simp only [manSet, hany, Bool.false_eq_true, if_false]
+    exact manifestPathOf_insertNew want v mans hall
+
 end OllamaVerif.BlobCache
